@@ -7,6 +7,15 @@
    Order inside one handler step (as in C): the oracle is asked once (ECall logged), its stores
    into variables are applied, its inner API calls are executed, then — for read/test handlers —
    its edit of the response buffer is applied (`se`), then the returned integer is dispatched. *)
+(* Definitions used in the statements that live in Lemmas_C10.v (all plain Definitions/Fixpoints):
+     calls_of t          the handler calls (request, returned integer) of a trace, newest first
+     in_rt_loop rd f s   machine f is in its READ_LOOP (rd = true) / TEST_LOOP (rd = false)
+     cstep w             fst (cmd_service w): one service step of the command machine
+     h_returns h q rs    the handler oracle, asked q repeatedly from handler-state h, answers rs in order
+     h_returns_any P h rs   the same for any requests satisfying P;  is_hread ci q: q is a read-handler
+                         request of the command machine for command ci
+     script_of h key     (scripted environment) the results still scripted for key
+     rd_run, rq, unit_of, units_of, edit_text   explained at theorem 6 *)
 From Coq Require Import List NArith ZArith Bool Arith.
 From CatV Require Import Bytes Defs Codec Spec Fsm Script ResolveDefs TextDefs RespDefs Lemmas_C10.
 Import ListNotations.
@@ -234,6 +243,20 @@ Theorem C10_io_write_keeps_cbuf : forall (w : world) s,
   ubuf (unsolicited_process_io_write_wait s) = ubuf s /\
   ubuf (st (fst (unsolicited_process_io_write w))) = ubuf (st w).
 Proof. exact (Lemmas_C10.C10_io_write_keeps_cbuf ioS muS hS io_write). Qed.
+
+(* 3c. a machine never touches the OTHER machine's buffer, in any state (both machines run in
+   every cat_service call): so a unit being flushed by one machine cannot be altered by the other *)
+Theorem C10_event_machine_keeps_cbuf : forall (w : world),
+  cbuf (st (fst (unsolicited_events_service w))) = cbuf (st w).
+Proof.
+  exact (Lemmas_C10.C10_event_machine_keeps_cbuf D ioS muS hS io_write mu_lock mu_unlock h_call).
+Qed.
+
+Theorem C10_command_machine_keeps_ubuf : forall (w : world),
+  ubuf (st (fst (cmd_service w))) = ubuf (st w).
+Proof.
+  exact (Lemmas_C10.C10_command_machine_keeps_ubuf D ioS muS hS io_read io_write mu_lock mu_unlock h_call).
+Qed.
 
 (* 4a. a variable's read callback returning non-zero aborts with ERROR (command) / silently
    (event); the only handler call of the step is that callback (calls_of = the ECall events) *)
@@ -589,3 +612,5 @@ Print Assumptions C10_ack_shape.
 Print Assumptions C10_write_sequence_scripted.
 Print Assumptions C10_run_sequence_scripted.
 Print Assumptions C10_read_sequence_scripted.
+Print Assumptions C10_event_machine_keeps_cbuf.
+Print Assumptions C10_command_machine_keeps_ubuf.
